@@ -1333,6 +1333,7 @@ func (p *pipe) DoStream(ctx context.Context, pool *pool, cmd Completed) RedisRes
 	cmds.CompletedCS(cmd).Verify()
 
 	if err := ctx.Err(); err != nil {
+		pool.Store(p) // the wire was acquired for this stream: it goes back now, no WriteTo will do it
 		return NewErrorResultStream(err)
 	}
 	state := atomic.LoadInt32(&p.state)
@@ -1382,6 +1383,7 @@ func (p *pipe) DoMultiStream(ctx context.Context, pool *pool, multi ...Completed
 	}
 
 	if err := ctx.Err(); err != nil {
+		pool.Store(p) // the wire was acquired for this stream: it goes back now, no WriteTo will do it
 		return NewErrorResultStream(err)
 	}
 	state := atomic.LoadInt32(&p.state)
